@@ -2,12 +2,17 @@
 """import_mutant.py <prop> <letter> <srcdir> "<needs>"  -> /verif/seeded/<prop>-<letter>/ (after confirm_mutant.sh said CONFIRMED)"""
 import sys, os, shutil, json, subprocess
 prop, letter, src, needs = sys.argv[1:5]
+skip = len(sys.argv) > 5 and sys.argv[5] == "--confirmed"
 dst = "/verif/seeded/%s-%s" % (prop, letter)
 os.makedirs(dst, exist_ok=True)
 for f in os.listdir(src):
     if os.path.isfile(os.path.join(src, f)) and os.path.getsize(os.path.join(src, f)) < 200000:
         shutil.copy(os.path.join(src, f), dst)
-r = subprocess.run(["/verif/tools/confirm_mutant.sh", dst], capture_output=True, text=True)
+if skip:
+    class R: stdout = "confirmed immediately before import with tools/confirm_mutant.sh on the delivered directory\nCONFIRMED"
+    r = R()
+else:
+    r = subprocess.run(["/verif/tools/confirm_mutant.sh", dst], capture_output=True, text=True)
 ok = "CONFIRMED" in r.stdout
 meta = {"breaks_property": prop, "origin": "independent sub-agent given only the property text and a scratch worktree",
         "needs_to_manifest": needs,
